@@ -1,6 +1,7 @@
 package props
 
 import (
+	"strings"
 	"sort"
 	"errors"
 	"fmt"
@@ -43,6 +44,9 @@ func (r scriptedResolver) ClientIP(fox.Context) (*net.IPAddr, error) {
 }
 
 var errResolver = errors.New("scripted resolver failure")
+
+// remoteMarker stands for "the remote address as Context.RemoteIP reports it for this request".
+const remoteMarker = "<remote address>"
 
 func levelOf(status int) slog.Level {
 	switch {
@@ -130,7 +134,7 @@ func runC20(src sim.Source, o Opts) *Result {
 		case 2:
 			return "unknown"
 		}
-		return "192.0.2.1"
+		return remoteMarker
 	}
 	behaviours := []string{"status", "status", "status", "2xx-with-location", "info-only", "implicit", "nothing", "redirect-loc", "3xx-noloc", "failing-conn", "panic"}
 	statuses := []int{200, 299, 300, 399, 400, 499, 500, 599, 301, 302, 303, 304, 305, 306, 307, 308, 310}
@@ -161,8 +165,16 @@ func runC20(src sim.Source, o Opts) *Result {
 		}
 		scripts = append(scripts, fmt.Sprintf("%s %s -> %s/%s/%d/loc=%v", p.Method, p.Path, kind, beh, status, withLoc))
 		pv := sim.Pick(src, "panicvalue", []any{"boom", errors.New("boom"), customPanic{1}})
+		// the peer address: IPv4, IPv6, IPv6 with a zone, and forms without a parsable IP (unix-socket peers)
+		remote := sim.Pick(src, "remoteaddr", []string{"192.0.2.1:1234", "192.0.2.1:1234", "[2001:db8::1]:80", "[fe80::1%eth0]:1234", "@", ""})
+		remoteSeen := "<not observed>"
+		scripts[len(scripts)-1] += " from " + remote
+		remoteWant := map[string]string{"192.0.2.1:1234": "192.0.2.1", "[2001:db8::1]:80": "2001:db8::1", "[fe80::1%eth0]:1234": "fe80::1%eth0", "@": "", "": ""}[remote]
 		run := func(ww *world.World, returned *bool) world.ServeObs {
 			log := &world.ReqLog{Inner: func(c fox.Context, h *world.Hit) {
+				if ww == w {
+					remoteSeen = c.RemoteIP().String()
+				}
 				wr := c.Writer()
 				switch beh {
 				case "status":
@@ -192,6 +204,7 @@ func runC20(src sim.Source, o Opts) *Result {
 				}
 			}}
 			req := world.NewRequest(p.Method, p.Host, p.Path, "", "", log)
+			req.RemoteAddr = remote
 			conn := world.NewConn()
 			if beh == "failing-conn" {
 				conn.FailAfter = 1
@@ -278,6 +291,13 @@ func runC20(src sim.Source, o Opts) *Result {
 		classes[levelOf(wantStatus)] = true
 		kinds[kind] = true
 		wantMsg := expectMsg(kind, r)
+		if wantMsg == remoteMarker {
+			wantMsg = remoteWant
+			if remoteSeen != "<not observed>" && remoteSeen != remoteWant {
+				res.Trouble = fmt.Sprintf("%s: Context.RemoteIP reports %q for RemoteAddr %q, the harness expects %q", where, remoteSeen, remote, remoteWant)
+				return res
+			}
+		}
 		loc := obs.Conn.H.Get("Location")
 		switch {
 		case rec.Attrs["status"] != strconv.Itoa(wantStatus):
@@ -319,7 +339,7 @@ func runC20(src sim.Source, o Opts) *Result {
 				pr := world.Probe{Method: "GET", Host: fmt.Sprintf("h%d-%d.invalid", t, q), Path: fmt.Sprintf("/l%d/c%d-%d", ri, t, q)}
 				reqs = append(reqs, creq{pr, st})
 				if levelOf(st) >= capt.MinLevel {
-					want = append(want, fmt.Sprintf("%s %s status=%d method=GET host=%s path=%s", levelOf(st), expectMsg(model.KRoute, routes[ri]), st, pr.Host, pr.Path))
+					want = append(want, fmt.Sprintf("%s %s status=%d method=GET host=%s path=%s", levelOf(st), strings.Replace(expectMsg(model.KRoute, routes[ri]), remoteMarker, "192.0.2.1", 1), st, pr.Host, pr.Path))
 				}
 			}
 			s.Go(fmt.Sprintf("client%d", t), func(*sim.Task) {
